@@ -8,7 +8,7 @@
     - [c07_model_bad]: the conductor LTS ([Model.Conduct]), run on the label
       sequence the fault stands for, does not predict whether the final cleanup
       ran / whether the status is zero. *)
-From Shk Require Import Base.Prelude Model.Conduct Corr.C04.
+From Shk Require Import Base.Prelude Model.Conduct Model.Prompt Corr.C04.
 Open Scope Z_scope.
 
 Record fcase := mkFcase {
@@ -191,3 +191,30 @@ Definition c07_model_bad (c : fcase) : bool :=
            | Some _ => negb (Bool.eqb (isnil && negb (f_sig c =? 1)%N) (f_exit c =? 0))
            | None => false
            end).
+
+(** ** The real runScene / prompt under a quiescing stopper (hook
+    pkg/cmd/verif_c07.go; deterministic, no signal timing).
+    kind 0: runScene on a scene of [s_nlines] lines with a stopper already
+    quiescing; kind 1: prompt, the stopper quiescing exactly when the
+    [s_k]-th non-empty scene (of [s_nscenes]) is announced. *)
+Record scase := mkScase {
+  s_kind : N; s_k : N; s_nscenes : N; s_nlines : N;
+  s_returned : bool;       (* the call returned within 20 s *)
+  s_err : bool;            (* with a non-nil error *)
+  s_fired : bool;          (* the quiesce request was injected *)
+  s_elapsed_ms : Z }.
+
+(** plain meaning: the call returns (the prompter is not wedged); a scene whose
+    lines were all refused reports an error; the request was injected. *)
+Definition c07_stop_oracle_bad (c : scase) : bool :=
+  negb (s_returned c)
+  || ((s_kind c =? 0)%N && negb (s_err c))
+  || ((s_kind c =? 1)%N && (s_k c <=? s_nscenes c)%N && negb (s_fired c)).
+
+(** the model: all lines refused; does the barrier open (counter 0, nothing running)? *)
+Definition barrier_opens (nlines : N) : bool :=
+  match wrun true wg_init (repeat (WLaunch LRefused) (N.to_nat nlines)) with
+  | Some s => (wg_count s =? 0) && Nat.eqb (wg_running s) 0
+  | None => false
+  end.
+Definition c07_stop_model_bad (c : scase) : bool := negb (Bool.eqb (barrier_opens (s_nlines c)) (s_returned c)).
